@@ -4,7 +4,7 @@ CONSTANTS
   FactorNames = {}
   Powers <- P_pm2
   MaxFactors = 0
-  Mags <- M_two
+  Mags <- M_zero
   TargetNames <- N_tiny
   TargetPowers <- P_pm2
   MaxTFactors = 1
